@@ -10,9 +10,10 @@ NOTE_COMMON = ("Trusted: Coq 8.16.1 kernel + vm_compute; the hand-written Gallin
 CLAIMED = {
  "C01": ("Coq proof: exact model = firmware recurrence for every tick count (induction) + correspondence",
          "Theorem C01_exact: for all integers and every T>=1 the exact-arithmetic model of move_dist_lt equals the tick-by-tick firmware recurrence (both accumulator forms, "
-         "both clear values), remainder in [0,2^31); aliases equal. The model is tied to ebb_calc.py/ebb_motion.py by running both on firmware-valid inputs (T up to 2^32-1) "
+         "both clear values), remainder in [0,2^31); aliases equal. Theorem C01_rounding_exact: with every mpmath operation of move_dist_lt followed by ANY rounding operator that leaves 103-bit numbers unchanged "
+         "(dps = 30), the rounded computation equals the exact one for |rate| <= 2^33, |accel| <= 2^32, T <= 2^32, accumulator in [0,2^31) - the 30-digit arithmetic the code forces is exact on the domain. The model is tied to ebb_calc.py/ebb_motion.py by running both on firmware-valid inputs (T up to 2^32-1) "
          "under varying ambient mpmath precision; every implementation output is also checked against the proved O(1) closed form of the recurrence.",
-         NOTE_COMMON + "move_dist_lt is re-translated from the source on every run (tools/py2v.py, mpmath calls read as exact arithmetic) and proved equal to the model. Rounding of mpmath (30 digits) and of the float quotient accel/2 is exact on the domain by a pencil argument (DESIGN.md), sampled here, not proved in Coq.",
+         NOTE_COMMON + "move_dist_lt is re-translated from the source on every run (tools/py2v.py, mpmath calls read as exact arithmetic) and proved equal to the model. That mpmath rounds each operation to 103 bits leaving representable values unchanged (correct rounding) and that the float quotient accel/2 truncates exactly are assumptions about mpmath / CPython, sampled here under six ambient precisions.",
          "DESIGN.md section 5, C01"),
  "C02": ("Coq proof: exact models = third-order recurrence for every tick count (induction) + correspondence",
          "Theorems C02_exact_dist / C02_exact_rate / C02_zero_jerk: for all integers and every T>=1 the exact models of move_dist_t3 and rate_t3 equal the tick-by-tick third-order "
